@@ -68,7 +68,15 @@ pub struct Violation {
     pub case: J,
 }
 
-const DISTINCT_CAP: usize = 6_000_000;
+/// bound of the distinct-case hash set (quick 6 M, thorough 40 M entries; set once at start-up)
+static DISTINCT_CAP_V: std::sync::atomic::AtomicUsize = std::sync::atomic::AtomicUsize::new(6_000_000);
+pub fn set_distinct_cap(n: usize) {
+    DISTINCT_CAP_V.store(n, std::sync::atomic::Ordering::Relaxed);
+}
+#[allow(non_snake_case)]
+fn distinct_cap() -> usize {
+    DISTINCT_CAP_V.load(std::sync::atomic::Ordering::Relaxed)
+}
 
 pub struct Evidence {
     pub evaluations: u64,
@@ -108,7 +116,7 @@ impl Evidence {
         self.evaluations += 1;
     }
     pub fn nontrivial_hash(&mut self, h: u64) {
-        if self.distinct.len() < DISTINCT_CAP {
+        if self.distinct.len() < distinct_cap() {
             self.distinct.insert(h);
         }
     }
@@ -135,7 +143,7 @@ impl Evidence {
     pub fn merge(&mut self, o: Evidence) {
         self.evaluations += o.evaluations;
         for h in o.distinct {
-            if self.distinct.len() < DISTINCT_CAP {
+            if self.distinct.len() < distinct_cap() {
                 self.distinct.insert(h);
             }
         }
@@ -336,8 +344,8 @@ pub fn evidence_json(ctx: &Ctx, res: &CheckResult, wall_s: f64, unknown_violatio
         cov.insert("excluded_known_findings".into(), json!(ev.excluded_known));
     }
     let mut notes = ev.notes.clone();
-    if ev.distinct.len() >= DISTINCT_CAP {
-        notes.push(format!("distinct_nontrivial is a lower bound: the hash set of distinct cases is capped at {} entries", DISTINCT_CAP));
+    if ev.distinct.len() >= distinct_cap() {
+        notes.push(format!("distinct_nontrivial is a lower bound: the hash set of distinct cases is capped at {} entries", distinct_cap()));
     }
     if !notes.is_empty() {
         cov.insert("notes".into(), json!(notes));
